@@ -1,6 +1,7 @@
 import Driver.Util
 import Driver.C09
 import AslModel.Model.AddrLab
+import AslModel.Model.AddrLabPre
 import AslModel.Spec.PFile
 import AslModel.Generated.ListParams
 /-! Driver mode `c10l` (C10, label part): a program of labelled lines and constructs (macro call / REPT / IRP / IRPN / IRPC /
@@ -16,11 +17,15 @@ request : `<CPU> <sbig> <mturn> <pad0> <fixStruct> <hdr|-> <n> node^n | syms=<to
        | `ST <name> <0|1>` | `EST`
   symbol token = `<label>` | `<struct>.<label>` | `<struct>.L`
 answer  : `model=<eq|ne> mwhy=… spec=<ok|fail> swhy=… sig=<known class|-> stop=<end|unspecified@i> mstop=<end|undefined@i> cells=<eq|ne|na>
-           lines=<n> judged=<n> own=<toks|-> before=<toks|-> beforelab=<toks|->`
+           lines=<n> judged=<n> own=<toks|-> before=<toks|-> keptlab=<toks|-> pre=<yes|no|na>`
   * model – every observation equals what `Model/AddrLab.lean` (transcription of `Produce_Code`'s label part, `LabelModify`,
             `InsertPadding`, the Motorola pseudo-ops) predicts
   * spec  – the SPEC machine (`Spec/AddrLab.lean`, PADDING / macro / DC sections of the manual) agrees with the real program
-  * own / before / beforelab – labels the SPEC moved behind a pad byte (harness statistics)
+  * own / before – labels the SPEC moved behind a pad byte; keptlab – labels alone on the line before a padded line that carries a
+    label of its own (they keep the address of the pad byte: only the most recent label is adapted) (harness statistics)
+  * pre   – the program meets the precondition `Pre` of the refinement theorem `C10_lab_refine` (`Props/C10_Lab.lean`; `na`: MODEL
+            and SPEC start with different PADDING defaults, the start states are not related) (harness statistics: on how many of
+            the generated programs the theorem speaks)
 -/
 namespace Driver.C10L
 open AslModel AslModel.Data AslModel.DataModel AslModel.AddrLab AslModel.AddrLabModel
@@ -167,9 +172,7 @@ def handle (line : String) : String :=
             let diffs := symDiffs s.syms rsyms
             let isK1 (d : Sym × Int × Option Int) : Bool :=
               d.1.st.isSome && d.1.leaf.isSome && d.2.2 == some (d.2.1 - 1) &&
-                (s.movedOwn.contains d.1 || s.movedBefore.contains d.1 || s.movedBeforeLabelled.contains d.1)
-            let isK2 (d : Sym × Int × Option Int) : Bool :=
-              d.1.st.isNone && d.2.2 == some (d.2.1 - 1) && s.movedBeforeLabelled.contains d.1
+                (s.movedOwn.contains d.1 || s.movedBefore.contains d.1)
             let restBad : Option String :=
               if rendI ≠ some (AddrLab.epc s) then some s!"counter-at-end:spec={AddrLab.epc s},real={rend}"
               else if dedup s.errs ≠ rerrs then some s!"error-lines:spec={dedup s.errs},real={rerrs}"
@@ -191,13 +194,14 @@ def handle (line : String) : String :=
                   if PFile.cellsOf items == want then "eq" else "ne"
             let ksig : String :=
               if sstop.isSome || sg ≠ 0 || diffs.isEmpty || restBad.isSome || cells ≠ "eq" then "-"
-              else if diffs.all (fun d => isK1 d || isK2 d) then
-                (if diffs.any isK1 then "struct-field-symbol-keeps-pad-offset" else "label-before-labelled-statement-names-pad-byte")
+              else if diffs.all isK1 then "struct-field-symbol-keeps-pad-offset"
               else "-"
             let judged := (s.syms.filter (·.2.isSome)).length
+            let pre : String := if pad0 != spad0 then "na"
+              else if AddrLabRefine.Pre cfg (sb == "1") { padding := spad0 } prog then "yes" else "no"
             let q (o : Option String) : String := (o.getD "-").replace " " ""
             let stopS (o : Option Nat) (w : String) : String := match o with | none => "end" | some i => s!"{w}@{i}"
-            s!"model={if mbad.isNone then "eq" else "ne"} mwhy={q mbad} spec={if sbad.isNone then "ok" else "fail"} swhy={q sbad} sig={ksig} stop={stopS sstop "unspecified"} mstop={stopS mstop "undefined"} cells={cells} lines={mlines.length} judged={judged} own={toks s.movedOwn} before={toks s.movedBefore} beforelab={toks s.movedBeforeLabelled}"
+            s!"model={if mbad.isNone then "eq" else "ne"} mwhy={q mbad} spec={if sbad.isNone then "ok" else "fail"} swhy={q sbad} sig={ksig} stop={stopS sstop "unspecified"} mstop={stopS mstop "undefined"} cells={cells} lines={mlines.length} judged={judged} own={toks s.movedOwn} before={toks s.movedBefore} keptlab={toks s.keptBeforeLabelled} pre={pre}"
         | _, _, _, _, _, _ => "bad-request obs"
   | _ => "bad-request"
 
